@@ -733,7 +733,19 @@ class Context:
         # Also take into account the versions of the plugins registered
         _base_hash_on_config.update(
             {
-                data_type: (plugin.version(), plugin.compressor, plugin.input_timeout)
+                data_type: (
+                    # The class object itself (a re-registered class with the same name and
+                    # version may have other defaults or dependencies) and the versions of its
+                    # bases (they are part of the lineage of child plugins)
+                    id(plugin),
+                    plugin.__name__,
+                    plugin.version(),
+                    plugin.compressor,
+                    plugin.input_timeout,
+                    tuple(
+                        (b.__name__, b.version()) for b in plugin.__bases__ if hasattr(b, "version")
+                    ),
+                )
                 for data_type, plugin in self._plugin_class_registry.items()
                 if not data_type.startswith(TEMP_DATA_TYPE_PREFIX)
             }
